@@ -105,6 +105,9 @@ pub enum Variant {
     OtherExpander(u8),
     OtherMode,
     OtherGroup,
+    /// a call OUTSIDE the property's domain (tag of 256..=400 bytes): its outcome is ignored (a panic is
+    /// caught as a long-lived worker would); the calls after it are still compared with the model
+    OutOfDomainTag(u8),
 }
 
 #[derive(Clone, Debug, Serialize, Deserialize, PartialEq, Eq, Hash)]
@@ -123,6 +126,7 @@ fn related_strategy() -> BoxedStrategy<RelatedCase> {
         2 => (0u8..4).prop_map(Variant::OtherExpander),
         2 => Just(Variant::OtherMode),
         1 => Just(Variant::OtherGroup),
+        1 => any::<u8>().prop_map(Variant::OutOfDomainTag),
     ];
     (prop_oneof![h2c_strategy(0), h2c_strategy(0), h2c_strategy(1)], proptest::collection::vec(v, 1..5)).prop_map(|(base, variants)| RelatedCase { base, variants }).boxed()
 }
@@ -152,6 +156,12 @@ fn check_related(c: &RelatedCase, info: &mut Info) -> Result<(), String> {
             Variant::OtherExpander(e) => next.expander = *e,
             Variant::OtherMode => next.ro = !cur.ro,
             Variant::OtherGroup => next.group = 1 - cur.group % 2,
+            Variant::OutOfDomainTag(n) => {
+                let long: Vec<u8> = (0..256 + (*n as usize * 145) / 255).map(|i| (i % 251) as u8).collect();
+                let e = expander_of(cur.expander);
+                let msg = cur.msg.build();
+                let _ = crate::engine::cr_panics(|| if cur.group == 0 { crate_h2c_g1(e, cur.ro, &msg, &long); } else { crate_h2c_g2(e, cur.ro, &msg, &long); });
+            }
         }
         info.class(format!("then:{}", match v {
             Variant::Same => "same-input-again",
@@ -162,6 +172,7 @@ fn check_related(c: &RelatedCase, info: &mut Info) -> Result<(), String> {
             Variant::OtherExpander(_) => "other-expander",
             Variant::OtherMode => "other-mode",
             Variant::OtherGroup => "other-group",
+            Variant::OutOfDomainTag(_) => "same-input-after-an-out-of-domain-call",
         }));
         let mut tmp = Info::default();
         check_h2c(&next, &mut tmp).map_err(|m| format!("after hashing a related input first: {}", m))?;
